@@ -1,2 +1,218 @@
-/- placeholder until the control-encoder theorems are merged -/
-import PyAirtouch.Spec.At4Read
+import PyAirtouch.Lemmas.SpecCmd
+/-!
+# C04 — commands on the wire mean what the vendor protocol says
+
+Encoder direction, for the four control messages (AirTouch 4: 0x2A group control, 0x2C AC control; AirTouch 5:
+0xC0/0x20 zone control, 0xC0/0x22 AC control).  `g4_` / `g5_` = AirTouch 4 / 5.  Restatements only; the proofs and the
+`meaning…` tables (model enum member names ↦ vendor vocabulary) are in `Lemmas/SpecCmd.lean`.
+
+* `C04_g?_encode_reads_<kind>` — for EVERY well-formed message (the model's `WF`; for AirTouch 5 any number of records
+  that fits the count field) the encoder succeeds and the reader written from the vendor document, applied to the
+  encoder's bytes (AirTouch 5: the 8-byte sub-header + records the 0xC0 wrapper writes), returns exactly `meaning m`
+  (record by record, same order).  Added hypothesis, AirTouch 5 zone control only: `DocRange020` (zone index in six
+  bits, percentage ≤ 100, set-point ≤ 35.0 °C) — the ranges the document gives and `WF` does not; the three
+  `…_needs_…` / `…_refuted` theorems show each is needed.
+* `C04_g?_addresses_<kind>` — the AC / zone / group number read is the message's.
+* `C04_g?_changes_exactly_<kind>` — the attributes not read as "keep" are exactly the fields that are not the
+  keep / UNCHANGED / `None` member.
+* `C04_g?_value_exact_<kind>`, `C04_g?_value_boundary_<kind>…` — set-points and percentages are read back exactly over
+  the admissible range; at the boundary of the encodable range the encoder refuses (`struct.error`: 0x2A above 255;
+  AirTouch 5 set-points below 10.0 / above 35.5 °C) or — outside `WF` — masks (`…_refuted`: 0x2C set-point 64 is sent
+  as 0; AirTouch 5 AC set-point 0.0 is sent as "keep").
+* `C04_g?_frame_bytes`, `C04_g?_frame_fields`, `C04_g?_frame_reads` — frame clause, for every well-formed message of
+  the registry (not only the control messages): to-address 0x80, 0x90 iff the type is 0x1F; from-address 0xB0; length
+  field = number of payload bytes; last two bytes = `Spec.checkBytes` (CRC-16/MODBUS, high byte first) of address …
+  payload; read by the vendor's frame reader it is one frame with good check bytes and that address / id / type / data.
+* `C04_g?_wire_<kind>` — end to end: message object → `frameOf` (the model of `send` + `_write`) → vendor frame reader →
+  vendor command reader = `meaning m`.
+-/
+namespace PyAirtouch.Props.C04
+open PyAirtouch.Model PyAirtouch.Lemmas.SpecCmd
+
+/-! ## AirTouch 4, 0x2A group control -/
+theorem C04_g4_encode_reads_2A : type_of% @encode_reads_2A := @encode_reads_2A
+theorem C04_g4_encode_reads_2A' : type_of% @encode_reads_2A' := @encode_reads_2A'
+theorem C04_g4_addresses_2A : type_of% @addresses_2A := @addresses_2A
+theorem C04_g4_changedAttrs_meaning2A : type_of% @changedAttrs_meaning2A := @changedAttrs_meaning2A
+theorem C04_g4_changes_exactly_2A : type_of% @changes_exactly_2A := @changes_exactly_2A
+theorem C04_g4_value_exact_2A : type_of% @value_exact_2A := @value_exact_2A
+theorem C04_g4_value_boundary_2A : type_of% @value_boundary_2A := @value_boundary_2A
+theorem C04_g4_wellFormed_2A : type_of% @wellFormed_2A := @wellFormed_2A
+
+/-! ## AirTouch 4, 0x2C AC control -/
+theorem C04_g4_encode_reads_2C : type_of% @encode_reads_2C := @encode_reads_2C
+theorem C04_g4_encode_reads_2C' : type_of% @encode_reads_2C' := @encode_reads_2C'
+theorem C04_g4_read_encodeBytes_2C : type_of% @read_encodeBytes_2C := @read_encodeBytes_2C
+theorem C04_g4_encode_reads_2C_needs_wf : type_of% @encode_reads_2C_needs_wf := @encode_reads_2C_needs_wf
+theorem C04_g4_addresses_2C : type_of% @addresses_2C := @addresses_2C
+theorem C04_g4_changedAttrs_meaning2C : type_of% @changedAttrs_meaning2C := @changedAttrs_meaning2C
+theorem C04_g4_changes_exactly_2C : type_of% @changes_exactly_2C := @changes_exactly_2C
+theorem C04_g4_value_exact_2C : type_of% @value_exact_2C := @value_exact_2C
+theorem C04_g4_value_boundary_2C : type_of% @value_boundary_2C := @value_boundary_2C
+theorem C04_g4_value_boundary_2C_refuted : type_of% @value_boundary_2C_refuted := @value_boundary_2C_refuted
+theorem C04_g4_wellFormed_2C : type_of% @wellFormed_2C := @wellFormed_2C
+
+/-! ## AirTouch 5, 0xC0/0x20 zone control -/
+theorem C04_g5_encode_reads_C020 : type_of% @encode_reads_C020 := @encode_reads_C020
+theorem C04_g5_encode_reads_C020' : type_of% @encode_reads_C020' := @encode_reads_C020'
+theorem C04_g5_readZoneControlRecord_recBytes : type_of% @readZoneControlRecord_recBytes :=
+  @readZoneControlRecord_recBytes
+theorem C04_g5_addresses_C020 : type_of% @addresses_C020 := @addresses_C020
+theorem C04_g5_changes_meaningZoneRec : type_of% @changes_meaningZoneRec := @changes_meaningZoneRec
+theorem C04_g5_changes_exactly_C020 : type_of% @changes_exactly_C020 := @changes_exactly_C020
+theorem C04_g5_value_exact_C020 : type_of% @value_exact_C020 := @value_exact_C020
+theorem C04_g5_encode_reads_C020_needs_zone_lt_64 : type_of% @encode_reads_C020_needs_zone_lt_64 :=
+  @encode_reads_C020_needs_zone_lt_64
+theorem C04_g5_value_boundary_C020_setpoint_refuted : type_of% @value_boundary_C020_setpoint_refuted :=
+  @value_boundary_C020_setpoint_refuted
+theorem C04_g5_value_boundary_C020_percentage_refuted : type_of% @value_boundary_C020_percentage_refuted :=
+  @value_boundary_C020_percentage_refuted
+theorem C04_g5_value_boundary_C020_unencodable : type_of% @value_boundary_C020_unencodable :=
+  @value_boundary_C020_unencodable
+
+/-! ## AirTouch 5, 0xC0/0x22 AC control -/
+theorem C04_g5_encode_reads_C022 : type_of% @encode_reads_C022 := @encode_reads_C022
+theorem C04_g5_encode_reads_C022' : type_of% @encode_reads_C022' := @encode_reads_C022'
+theorem C04_g5_readAcControlRecord_recBytes : type_of% @readAcControlRecord_recBytes := @readAcControlRecord_recBytes
+theorem C04_g5_encode_reads_C022_needs_wf : type_of% @encode_reads_C022_needs_wf := @encode_reads_C022_needs_wf
+theorem C04_g5_addresses_C022 : type_of% @addresses_C022 := @addresses_C022
+theorem C04_g5_changes_meaningAcRec : type_of% @changes_meaningAcRec := @changes_meaningAcRec
+theorem C04_g5_changes_exactly_C022 : type_of% @changes_exactly_C022 := @changes_exactly_C022
+theorem C04_g5_value_exact_C022 : type_of% @value_exact_C022 := @value_exact_C022
+theorem C04_g5_value_boundary_C022_unencodable : type_of% @value_boundary_C022_unencodable :=
+  @value_boundary_C022_unencodable
+theorem C04_g5_value_boundary_C022_zero_refuted : type_of% @value_boundary_C022_zero_refuted :=
+  @value_boundary_C022_zero_refuted
+
+/-! ## Frame clause and end-to-end theorems -/
+theorem C04_g4_frame_bytes : type_of% @frame_bytes_g4 := @frame_bytes_g4
+theorem C04_g4_frame_fields : type_of% @frame_fields_g4 := @frame_fields_g4
+theorem C04_g4_frame_reads : type_of% @frame_reads_g4 := @frame_reads_g4
+theorem C04_g4_wire_2A : type_of% @wire_2A := @wire_2A
+theorem C04_g4_wire_2C : type_of% @wire_2C := @wire_2C
+theorem C04_g5_frame_bytes : type_of% @frame_bytes_g5 := @frame_bytes_g5
+theorem C04_g5_frame_fields : type_of% @frame_fields_g5 := @frame_fields_g5
+theorem C04_g5_frame_reads : type_of% @frame_reads_g5 := @frame_reads_g5
+theorem C04_g5_wire_C020 : type_of% @wire_C020 := @wire_C020
+theorem C04_g5_wire_C022 : type_of% @wire_C022 := @wire_C022
+/-- the to-address constants of both header factories (already C03): extended 0x90, normal 0x80, from 0xB0 -/
+theorem C04_g4_toAddress_values : type_of% @PyAirtouch.Lemmas.Registry4.toAddress_values :=
+  @PyAirtouch.Lemmas.Registry4.toAddress_values
+theorem C04_g5_toAddress_values : type_of% @PyAirtouch.Lemmas.Registry5.toAddress_values :=
+  @PyAirtouch.Lemmas.Registry5.toAddress_values
+
+/-! ## Non-vacuity: the vendor documents' own example commands
+
+Each example builds the model message for the command the document describes in words, shows that the send path
+writes exactly the bytes printed in the document, and instantiates the theorems above. -/
+
+section Examples4
+open PyAirtouch.Model.At4 PyAirtouch.Model.At4.Registry
+
+/-- AirTouch 4 v1.6, 4.a "Turn off the second group" -/
+def g4GroupOff : X2A.Msg := ⟨1, .TURN_OFF, .UNCHANGED, .none⟩
+/-- 4.a "Set first group to percentage control" -/
+def g4GroupPercentage : X2A.Msg := ⟨0, .UNCHANGED, .DAMPER, .none⟩
+/-- 4.c "Turn off the second AC" -/
+def g4AcOff : X2C.Msg := ⟨1, .TURN_OFF, .UNCHANGED, .UNCHANGED, .none⟩
+/-- not in the document: set-point 24 °C on AC 3 and nothing else -/
+def g4AcSetpoint : X2C.Msg := ⟨3, .UNCHANGED, .UNCHANGED, .UNCHANGED, .value 24⟩
+
+-- the send path writes the document's bytes (packet id 1)
+example : frameOf 1 (.groupCtrl g4GroupOff) = .ok Spec.At4.exGroupOff := by decide +kernel
+example : frameOf 1 (.groupCtrl g4GroupPercentage) = .ok Spec.At4.exGroupPercentage := by decide +kernel
+example : frameOf 1 (.acCtrl g4AcOff) = .ok Spec.At4.exAcOff := by decide +kernel
+
+-- the meaning tables give the document's reading of its own examples
+example : meaning2A g4GroupOff =
+    { group := 1, setting := .keep, controlMethod := .keep, power := .off, value := 0, reserved := 0 } := rfl
+example : meaning2C g4AcOff =
+    { ac := 1, power := .off, mode := .keep 15, fanSpeed := .keep 15, setpoint := .keep, setpointValue := 0x3f,
+      reserved := 0 } := rfl
+example : Spec.At4.readWire Spec.At4.exGroupOff = some (.groupControl (meaning2A g4GroupOff)) := by decide +kernel
+example : Spec.At4.readWire Spec.At4.exAcOff = some (.acControl (meaning2C g4AcOff)) := by decide +kernel
+
+-- the theorems apply (hypotheses satisfiable) and give these readings
+example : X2A.WF g4GroupOff := by decide
+example : X2C.WF g4AcOff ∧ X2C.WF g4AcSetpoint := by decide
+example : ∃ bs, X2A.encode g4GroupOff = .ok bs ∧ bs.length = 4 ∧
+    Spec.At4.readGroupControl bs = some (meaning2A g4GroupOff) := C04_g4_encode_reads_2A g4GroupOff (by decide)
+example : (Spec.At4.readGroupControl [0x01, 0x02, 0x00, 0x00]).map Spec.At4.GroupControl.changedAttrs =
+    some ["power"] := C04_g4_changes_exactly_2A g4GroupOff _ (by decide)
+example : (Spec.At4.readGroupControl [0x00, 0x10, 0x00, 0x00]).map Spec.At4.GroupControl.changedAttrs =
+    some ["control_method"] := C04_g4_changes_exactly_2A g4GroupPercentage _ (by decide)
+example : (Spec.At4.readAcControl [0x81, 0xff, 0x3f, 0x00]).map Spec.At4.AcControl.changedAttrs = some ["power"] :=
+  C04_g4_changes_exactly_2C g4AcOff (by decide) _ (by decide)
+example : (Spec.At4.readAcControl [0x03, 0xff, 0x58, 0x00]).map Spec.At4.AcControl.changedAttrs = some ["setpoint"] ∧
+    (Spec.At4.readAcControl [0x03, 0xff, 0x58, 0x00]).map (·.setpoint) = some (.set 240) :=
+  ⟨C04_g4_changes_exactly_2C g4AcSetpoint (by decide) _ (by decide),
+   (C04_g4_value_exact_2C 3 .UNCHANGED .UNCHANGED .UNCHANGED 24 (by decide) (by decide) _ (by decide)).1⟩
+example : ∃ fr, frameOf 1 (.groupCtrl g4GroupOff) = .ok fr ∧ fr.length = 14 ∧ fr.getD 2 0 = 0x80 ∧
+    fr.getD 3 0 = 0xB0 ∧ Spec.At4.readWire fr = some (.groupControl (meaning2A g4GroupOff)) :=
+  C04_g4_wire_2A 1 (by decide) g4GroupOff (by decide)
+-- the frame clause applied to an extended (0x1F) message: to-address 0x90
+example : ∃ fr, frameOf 1 (.extended (.consoleVer .request)) = .ok fr ∧ fr.getD 2 0 = 0x90 ∧ fr.getD 3 0 = 0xB0 := by
+  obtain ⟨fr, h⟩ := PyAirtouch.Lemmas.Registry4.frameOf_ok (.extended (.consoleVer .request)) 1
+    (by decide +kernel) (by decide) (by intro n hn; cases hn; decide)
+  obtain ⟨_, _, _, h2, h3, _⟩ := C04_g4_frame_fields 1 _ (by decide +kernel) fr h
+  exact ⟨fr, h, h2, h3⟩
+
+end Examples4
+
+section Examples5
+open PyAirtouch.Model.At5 PyAirtouch.Model.At5.Registry
+
+/-- AirTouch 5 v1.2, 4.a.i "Turn off the second zone" -/
+def g5ZoneOff : C020.Msg := ⟨[⟨1, .TURN_OFF, none⟩]⟩
+/-- not in the document: zone 3 to 50 % and zone 4 to 24.0 °C in one message -/
+def g5ZoneTwo : C020.Msg := ⟨[⟨3, .UNCHANGED, some (.damper 50)⟩, ⟨4, .UNCHANGED, some (.setPoint 240)⟩]⟩
+/-- 4.a.iii "Turn off the second AC" -/
+def g5AcOff : C022.Msg := ⟨[⟨1, .TURN_OFF, .UNCHANGED, .UNCHANGED, none⟩]⟩
+/-- 4.a.iii "Set the first AC to cool mode and second AC 26 degree" -/
+def g5AcTwo : C022.Msg :=
+  ⟨[⟨0, .UNCHANGED, .COOL, .UNCHANGED, none⟩, ⟨1, .UNCHANGED, .UNCHANGED, .UNCHANGED, some 260⟩]⟩
+
+-- the registry's encoder writes the document's data bytes …
+example : encodeMsg (.controlStatus (.zoneCtrl g5ZoneOff)) = .ok Spec.At5.exZoneControlData := by decide +kernel
+example : encodeMsg (.controlStatus (.acCtrl g5AcOff)) = .ok Spec.At5.exAcControlOffData := by decide +kernel
+example : encodeMsg (.controlStatus (.acCtrl g5AcTwo)) = .ok Spec.At5.exAcControlTwoData := by decide +kernel
+-- … and the send path the document's frames behind the 10-byte outer wrapper (packet ids 0x0F and 1 as printed)
+example : frameOf 0x0F (.controlStatus (.zoneCtrl g5ZoneOff)) =
+    .ok (outerWrapper 12 ++ Spec.At5.exZoneControlFrame) := by decide +kernel
+example : frameOf 1 (.controlStatus (.acCtrl g5AcOff)) =
+    .ok (outerWrapper 12 ++ Spec.At5.exAcControlOffFrame) := by decide +kernel
+
+example : meaningC020 g5ZoneOff =
+    [{ zone := 1, setting := .keep, controlType := .keep, power := .off, value := .keep, valueRaw := 0xFF,
+       reservedZero := true }] := rfl
+example : meaningC022 g5AcTwo =
+    [{ ac := 0, power := .keep, mode := .cool, fanSpeed := .keep, setpoint := .keep, setpointValueRaw := 0xFF },
+     { ac := 1, power := .keep, mode := .keep, fanSpeed := .keep, setpoint := .set 260, setpointValueRaw := 0xA0 }] := by
+  decide
+
+-- the theorems apply (hypotheses satisfiable) and give these readings
+example : C020.WF g5ZoneTwo ∧ (∀ z ∈ g5ZoneTwo.zone_control, DocRange020 z) := by decide
+example : Spec.At5.readZoneControl Spec.At5.exZoneControlData = some (meaningC020 g5ZoneOff) :=
+  C04_g5_encode_reads_C020' g5ZoneOff (by decide) (by decide) (by decide) _ (by decide +kernel)
+example : (Spec.At5.readZoneControl Spec.At5.exZoneControlData).map (·.map (·.changes)) = some [["power"]] :=
+  C04_g5_changes_exactly_C020 g5ZoneOff (by decide) (by decide) (by decide) _ (by decide +kernel)
+example : Spec.At5.readAcControl Spec.At5.exAcControlTwoData = some (meaningC022 g5AcTwo) :=
+  C04_g5_encode_reads_C022' g5AcTwo (by decide) (by decide) _ (by decide +kernel)
+example : (Spec.At5.readAcControl Spec.At5.exAcControlTwoData).map (·.map (·.changes)) =
+    some [["mode"], ["setpoint"]] :=
+  C04_g5_changes_exactly_C022 g5AcTwo (by decide) (by decide) _ (by decide +kernel)
+example : ∃ fr f, frameOf 1 (.controlStatus (.acCtrl g5AcOff)) = .ok fr ∧
+    Spec.At5.readFrame (fr.drop 10) = some f ∧ Spec.At5.frameOk (fr.drop 10) = true ∧
+    f.address = Spec.At5.addrToAirtouch ∧ f.msgId = 1 ∧ Spec.At5.MsgType.ofCode f.msgType = .controlStatus ∧
+    Spec.At5.readControlStatus f.data = some (.acControl (meaningC022 g5AcOff)) :=
+  C04_g5_wire_C022 1 (by decide) g5AcOff (by decide) (by decide)
+-- the frame clause applied to an extended (0x1F) message: to-address 0x90
+example : ∃ fr, frameOf 1 (.extended (.consoleVer .request)) = .ok fr ∧ fr.getD 14 0 = 0x90 ∧ fr.getD 15 0 = 0xB0 := by
+  obtain ⟨fr, h⟩ := PyAirtouch.Lemmas.Registry5.frameOf_ok (.extended (.consoleVer .request)) 1
+    (by decide +kernel) (by decide) (by intro n hn; cases hn; decide)
+  obtain ⟨_, _, _, h14, h15, _⟩ := C04_g5_frame_fields 1 _ (by decide +kernel) fr h
+  exact ⟨fr, h, h14, h15⟩
+
+end Examples5
+
+end PyAirtouch.Props.C04
